@@ -1,7 +1,7 @@
 """C07 — executing a built program never panics the host."""
 import json, os, random
 import vlib, progsuite, opsuite
-from gen import proggen, opgen, panic_sites, accessgen
+from gen import proggen, opgen, panic_sites, accessgen, optgen
 
 BOUNDARY_LITS = ['2147483647', '2147483648', '0', '1', '1e308', '1.7976931348623157e308', '0.0000001', '""', '"é"', '"😀a"', "''", "'a'", '31', '32', '33', '1000000',
                  '(0 - 1)', '(0 - 2147483647 - 1)', '1.5', '(0 - 0.5)', '()', '$?', ':a', ':café', ':日本_x']
@@ -15,6 +15,7 @@ def run(ctx):
                '\n'.join(panic_sites.key(s) for s in new[:20]))
     cases = []
     acc_cases = []
+    reach_cases = []
     if ctx.replay:
         rp = json.load(open(ctx.replay))
         for f in [rp.get('failure')] + rp.get('more', []):
@@ -22,6 +23,8 @@ def run(ctx):
                 c = f['case']
                 if c[0] == 'ACCESS':
                     acc_cases.append(c)
+                elif c[0] in ('OPT', 'CLONE'):
+                    reach_cases.append(c)
                 else:
                     cases.append(c[:1] + [str(len(cases))] + c[2:])
     else:
@@ -81,15 +84,37 @@ def run(ctx):
             add('(' * d + '1' + ')' * d, 'simple'); add('(' * d + '1' + ')' * d, 'basic')
             add(' , '.join(['(1 2)'] * d), 'basic'); add('1' + ' + 1' * d, 'simple')
             add('{ ' * min(d, 60) + '1' + ' }' * min(d, 60), 'basic')
+    # deeply nested DATA consumed by one instruction (the nesting above is of syntax): a pair chain tens of thousands of levels deep
+    # cast to text / to a symbol, compared with itself, asked for its type — recorded finding on BasicGarnishData (native stack)
+    deep_cases = []
+    if not ctx.replay:
+        for n in (2000, 40000):
+            chain = '(' + ' = '.join(['1'] * n) + ')'
+            for use in ('%s ~# ""', '%s ~# :a', '%s == %s', '# %s'):
+                for st in progsuite.STORES:
+                    if n == 40000 and use == '%s == %s':
+                        continue          # minutes of honest work, no recursion
+                    deep_cases.append(['RUN', 'deep%d' % len(deep_cases), st, vlib.esc(use.replace('%s', chain)), '-', '-'])
+    else:
+        deep_cases = [c for c in cases if c[0] == 'RUN' and len(c[3]) > 50000]
+        cases = [c for c in cases if c not in deep_cases]
     ops_cases = [] if ctx.replay else opgen.gen_cases()
     if ctx.tier == 'quick' and ops_cases:
         ops_cases = ops_cases[::3]
     if not ctx.replay:
         acc_cases = accessgen.gen_cases(ctx.seed, ctx.tier)
-    ctx.evaluations = len(cases) + len(ops_cases) + len(acc_cases)
+        # op sequences of the OPT / CLONE scripts that use the store as a host may (Props/C07Reach: `run ops Store.fresh`)
+        reach_cases = [c for c in optgen.gen_cases(ctx.seed + 3, ctx.tier)
+                       if c[2] != 'run' and optgen.stream_of(c[1]) in optgen.WELLFORMED]
+        if ctx.tier == 'quick':
+            reach_cases = reach_cases[::2]
+    ctx.evaluations = len(cases) + len(deep_cases) + len(ops_cases) + len(acc_cases) + len(reach_cases)
     if not h_ok:
         return
     impl = vlib.run_impl(cases, 'c07', per_case_s=5.0)
+    if deep_cases:
+        impl.update(vlib.run_impl(deep_cases, 'c07deep', per_case_s=60.0, extra_env={'GHARNESS_STEP_LIMIT': '4000000'}))
+        cases = cases + deep_cases
     stats = {}
     for c in cases:
         r = impl.get(c[1], 'missing')
@@ -122,14 +147,32 @@ def run(ctx):
             stats['acc:' + ('agree' if ri == rm else k)] = stats.get('acc:' + ('agree' if ri == rm else k), 0) + 1
         for c in acc_cases[:: max(1, len(acc_cases) // 4)][:4]:
             ctx.sample({'suite': 'ACCESS', 'store': c[2], 'term': c[3][:120], 'queries': c[4][:160], 'impl': ai.get(c[1], '')[:300], 'model': am.get(c[1], '')[:300]}, cap=90)
+    # reachability tie: `Heap.WF` — the hypothesis of every theorem of Props/C07Access, a theorem for every reachable store in
+    # Props/C07Reach — decided by the driver (` awf=`) on the heap view of the model store after every opt / clone record and at
+    # the end of every generated op sequence; the model store is the real heap (raw cells, block table, heads compared)
+    if reach_cases and drv_ok:
+        ri = vlib.run_impl(reach_cases, 'c07reach', per_case_s=10.0)
+        rm = vlib.run_model(reach_cases, 'c07reach')
+        judged, flags, good, bad = optgen.access_wf_stats(reach_cases, ri, rm)
+        by_id = {c[1]: c for c in reach_cases}
+        for c in reach_cases:
+            ctx.distinct.add(('reach', c[2]))
+        for cid, script, why in bad:
+            ctx.fail('corr', by_id[cid], impl=ri.get(cid, '')[:400], model=rm.get(cid, '')[:400], expect='awf=1 on a store equal to the real heap',
+                     note=f'Heap.WF (hypothesis of the C07Access theorems, C07_reachable_no_panic) not observed on a reachable heap: {why} (REACH suite)')
+        ctx.oblige('suite BASIC.reach (Heap.WF decided on the heap of every generated op sequence; model store = real heap)', 'suite', not bad and judged > 0,
+                   f'{len(bad)} of {judged} scripts; {good}/{flags} flags true')
+        stats['reach:scripts'] = judged
+        stats['reach:awf=1'] = good
+        stats['reach:awf=0'] = flags - good
     ctx.rule = ('RUN cases: boundary literals (i32 limits, huge floats, empty and multi-byte text, shift counts 31/32/33, negative and fractional numbers) under binary operators in both orders and in indexing / slicing / casting / range shapes, '
-                'generated core-language programs, deeply nested groups/lists/expressions; OP matrix (every instruction x every type pair); all on both stores with callbacks absent / declining / accepting; oracle: no PANIC, no ABORT, no HANG — every step returns Ok or Err; '
+                'generated core-language programs, deeply nested groups/lists/expressions, pair chains 2 000 and 40 000 levels deep consumed by casts / equality / type-of; OP matrix (every instruction x every type pair); all on both stores with callbacks absent / declining / accepting; oracle: no PANIC, no ABORT, no HANG — every step returns Ok or Err; '
                 'plus the regenerated panic-site inventory against its reviewed baseline; '
                 'ACCESS cases: every item getter and iterator constructor of both data objects, and access / apply with integer and symbol keys, on sequences of length 0..5 and long ones '
                 '(multi-byte text, byte extremes, symbol lists with numbers, nested lists, concatenations with lists / slices / slices of concatenations inside, slices of slices) with indexes and extents from '
                 '{MIN, MIN+1, -2, -1, 0, 1, len-1, len, len+1, MAX-1, MAX} and float indexes (fractional, huge, infinite, NaN); model answer must equal the implementation answer; '
                 'distinct = distinct (source, store) resp. (term, store, queries).')
-    ctx.suites = {'RUN': len(cases), 'OP': len(ops_cases), 'ACCESS': len(acc_cases), 'outcomes': stats, 'panic_sites': len(cur)}
+    ctx.suites = {'RUN': len(cases), 'OP': len(ops_cases), 'ACCESS': len(acc_cases), 'REACH': len(reach_cases), 'outcomes': stats, 'panic_sites': len(cur)}
     for c in cases[:: max(1, len(cases) // 6)][:6]:
         ctx.sample({'source': vlib.unesc(c[3]), 'store': c[2], 'impl': impl.get(c[1])}, cap=80)
     ctx.trusted += ['panic-site inventory is a syntactic over-approximation of the anchored files (tools/gen/panic_sites.py); panics inside std or unanchored files are only visible to the oracle',
